@@ -216,24 +216,27 @@ Proof. intros H. exact H. Qed.
 
 Definition tok_ok_op (o : mop) (st : mgr) : Prop :=
   match o with
-  | MAdd seq _ _ tok _ => ~ In seq (qseqs (m_queue st)) -> ~ In tok (all_toks st)
-  | MAddPref _ tok => ~ In 1 (qseqs (m_queue st)) -> ~ In tok (all_toks st)
+  | MAdd seq _ _ tok _ => ~ In seq (held st) -> ~ In tok (all_toks st)
+  | MAddPref _ tok => ~ In 1 (held st) -> ~ In tok (all_toks st)
   | MSetTok t => ~ In t (all_toks st)
   | _ => True
   end.
 
-(** [op_ok] plus: a frame for a sequence number that is not queued carries a token the manager
-    does not hold (every sequence number has its own token; retransmissions repeat it) *)
+(** [op_ok] plus: a frame for a sequence number the manager does not hold (neither active, queued
+    nor in use for path probing) carries a token it does not hold. Every peer that gives each
+    sequence number its own token satisfies this, retransmissions of any frame included
+    (a frame for a held number is not constrained at all). *)
 Definition op_okt (o : mop) (st : mgr) : Prop := op_ok o st /\ tok_ok_op o st.
 
 Lemma add_inner_tinv seq rpt c tok d st st' r :
   minv st -> tinv st -> 0 <= rpt <= seq ->
-  (~ In seq (qseqs (m_queue st)) -> ~ In tok (all_toks st)) ->
+  (seq <> m_active st -> ~ In seq (pseqs (m_probing st)) -> ~ In seq (qseqs (m_queue st)) -> ~ In tok (all_toks st)) ->
   mgr_add_inner seq rpt c tok d st = (st', r) -> tinv st'.
 Proof.
-  intros (Hcore & _) Ht Hv Hfresh. unfold mgr_add_inner.
+  intros (Hcore & _) Ht Hv Hfresh0. unfold mgr_add_inner.
   destruct (m_acid st); [intros H; inversion H; subst; assumption|].
-  destruct (pfind seq (m_probing st)); [destruct (_ && _); intros H; inversion H; subst; assumption|].
+  destruct (pfind seq (m_probing st)) eqn:Epf; [destruct (_ && _); intros H; inversion H; subst; assumption|].
+  apply pfind_none in Epf.
   destruct (negb _ && _); [intros H; inversion H; subst; apply emit_retire_tinv; assumption|].
   set (st1 := retire_probing_stage rpt st). set (st2 := retire_queue_stage rpt st1).
   destruct (rps_tinv rpt st Ht) as (Ht1 & Hq1 & Ha1). fold st1 in Ht1, Hq1, Ha1.
@@ -242,7 +245,11 @@ Proof.
   destruct (core_rqs rpt st1 Hc1) as (Hc2 & _ & _). fold st2 in Hc2.
   destruct (rps_spec rpt st) as (_ & _ & _ & _ & _ & _ & _ & Hpin & _). fold st1 in Hpin.
   destruct (rqs_spec rpt st1) as (Hq2eq & _). fold st2 in Hq2eq.
-  destruct (seq =? m_active st2); [intros H; inversion H; subst; assumption|].
+  destruct (rqs_spec rpt st1) as (_ & _ & Hact2 & _). fold st2 in Hact2.
+  destruct (rps_spec rpt st) as (_ & Hact1 & _). fold st1 in Hact1.
+  destruct (Z.eqb_spec seq (m_active st2)) as [|Hna]; [intros H; inversion H; subst; assumption|].
+  assert (Hfresh : ~ In seq (qseqs (m_queue st)) -> ~ In tok (all_toks st)).
+  { apply Hfresh0; [congruence|assumption]. }
   destruct (add_conn_id (mkN seq c tok) (m_queue st2)) as [q'|] eqn:E; [|intros H; inversion H; subst; assumption].
   assert (Ht3 : tinv (set_queue st2 q')).
   { apply (insert_tinv st2 seq c tok q' Ht2 (c_sorted _ Hc2) E). intros Hni2 Hin.
@@ -272,9 +279,13 @@ Proof.
   intros Hinv Ht [(Hcl & Hres & Hok) Htok]. pose proof Hinv as (Hcore & _ & Hpid & _).
   destruct o as [seq rpt c tok draw|c tok|draw|k| | |c|tok|id|id|tok|n]; cbn [mgr_step tok_ok_op] in *; try exact Ht.
   - unfold mgr_add. destruct (mgr_add_inner seq rpt c tok draw st) as [st' r] eqn:E.
-    pose proof (add_inner_tinv _ _ _ _ _ _ _ _ Hinv Ht Hok Htok E) as H. destruct r; simpl; try exact H. destruct (_ <=? _); exact H.
+    assert (Htok' : seq <> m_active st -> ~ In seq (pseqs (m_probing st)) -> ~ In seq (qseqs (m_queue st)) -> ~ In tok (all_toks st)).
+    { intros H1 H2 H3. apply Htok. unfold held. intros [?|Hin]; [congruence|]. apply in_app_or in Hin. tauto. }
+    pose proof (add_inner_tinv _ _ _ _ _ _ _ _ Hinv Ht Hok Htok' E) as H. destruct r; simpl; try exact H. destruct (_ <=? _); exact H.
   - unfold mgr_add_pref. destruct (add_conn_id (mkN 1 c tok) (m_queue st)) as [q'|] eqn:E; [|exact Ht]. simpl.
-    eapply insert_tinv; eauto. apply (c_sorted _ Hcore).
+    eapply insert_tinv; eauto; [apply (c_sorted _ Hcore)|]. intros Hnq. apply Htok. destruct Hok as [Ha0 Hh0].
+    unfold held. intros [Hx|Hin]; [lia|]. apply in_app_or in Hin as [Hin|Hin]; [contradiction|].
+    apply (c_ple _ Hcore) in Hin. lia.
   - unfold mgr_get. rewrite Hcl. destruct (should_update st); [|exact Ht].
     destruct (update_conn_id draw st) as [st'|] eqn:E; [|exact Ht]. simpl. eapply update_tinv; eauto.
   - destruct Hok.
@@ -399,15 +410,15 @@ Qed.
 
 Definition tok_okb (o : mop) (st : mgr) : bool :=
   match o with
-  | MAdd seq _ _ tok _ => zmem seq (qseqs (m_queue st)) || negb (zmem tok (all_toks st))
-  | MAddPref _ tok => zmem 1 (qseqs (m_queue st)) || negb (zmem tok (all_toks st))
+  | MAdd seq _ _ tok _ => zmem seq (held st) || negb (zmem tok (all_toks st))
+  | MAddPref _ tok => zmem 1 (held st) || negb (zmem tok (all_toks st))
   | MSetTok t => negb (zmem t (all_toks st))
   | _ => true
   end.
 
 Lemma tok_okb_ok o st : tok_okb o st = true -> tok_ok_op o st.
 Proof.
-  destruct o; simpl; try (intros; exact I).
+  destruct o; cbn [tok_okb tok_ok_op]; try (intros; exact I).
   - intros H Hni Hin. apply orb_prop in H as [H|H]; [apply zmem_in in H; contradiction|].
     apply negb_true_iff in H. apply zmem_in in Hin. congruence.
   - intros H Hni Hin. apply orb_prop in H as [H|H]; [apply zmem_in in H; contradiction|].
@@ -436,3 +447,159 @@ Proof. intros H. rewrite <- (app_nil_r (rev ops)). apply hist_oktb_reach_gen; [c
 
 Lemma w_good_okt : hist_oktb w_good (mgr_init w_init) = true.
 Proof. vm_compute. reflexivity. Qed.
+
+(** honest retransmissions are inside the hypothesis: the frame of the ACTIVE ID and the frame of a
+    PROBING ID repeated (the two histories the round-5 audit used against the former hypothesis) *)
+Lemma retransmissions_okt :
+  hist_oktb [w_add 1; MHsDone; MGet 0; w_add 1] (mgr_init w_init) = true /\
+  hist_oktb [w_add 1; w_add 2; MPathGet 1; w_add 1] (mgr_init w_init) = true /\
+  hist_oktb [w_add 1; w_add 2; w_add 3; MPathGet 1; MHsDone; MGet 0; w_add 1; w_add 2; w_add 3; MPathRetire 1; w_add 1] (mgr_init w_init) = true.
+Proof. vm_compute. auto. Qed.
+
+(* ---- "every sequence number has its own token" as a function ---- *)
+
+(** the peer's tokens follow an injective function of the sequence number (number 0: the token
+    of the transport parameters) *)
+Definition frame_follows (f : Z -> Z) (o : mop) : Prop :=
+  match o with
+  | MAdd seq _ _ tok _ => tok = f seq
+  | MAddPref _ tok => tok = f 1
+  | MSetTok t => t = f 0
+  | _ => True
+  end.
+
+Definition follows (f : Z -> Z) (st : mgr) : Prop :=
+  (forall e, In e (m_queue st) -> n_tok e = f (n_seq e)) /\
+  (forall pe, In pe (m_probing st) -> n_tok (snd pe) = f (n_seq (snd pe))) /\
+  (forall t, m_atok st = Some t -> t = f (m_active st)).
+
+Lemma update_follows f d st st' : follows f st -> update_conn_id d st = Some st' -> follows f st'.
+Proof.
+  intros (Hq & Hp & Ha) H. destruct (update_spec _ _ _ H) as (fr & r & Hq0 & _ & Hq' & Hact & _ & _ & Hpr & _ & Hat & _).
+  split; [|split].
+  - intros e He. apply Hq. rewrite Hq0. right. rewrite <- Hq'. assumption.
+  - rewrite Hpr. assumption.
+  - intros t Ht. rewrite Hat in Ht. inversion Ht; subst. rewrite Hact. apply Hq. rewrite Hq0. left; reflexivity.
+Qed.
+
+Lemma add_inner_follows f seq rpt c tok d st st' r :
+  tok = f seq -> follows f st -> mgr_add_inner seq rpt c tok d st = (st', r) -> follows f st'.
+Proof.
+  intros Htok Hf. unfold mgr_add_inner. destruct (m_acid st); [intros H; inversion H; subst; assumption|].
+  destruct (pfind seq (m_probing st)); [destruct (_ && _); intros H; inversion H; subst; assumption|].
+  destruct (negb _ && _); [intros H; inversion H; subst; exact Hf|].
+  set (st1 := retire_probing_stage rpt st). set (st2 := retire_queue_stage rpt st1).
+  destruct (rps_spec rpt st) as (Hq1 & Hact1 & _ & _ & _ & Hat1 & _ & Hpin & _). fold st1 in Hq1, Hact1, Hat1, Hpin.
+  destruct (rqs_spec rpt st1) as (Hq2 & _ & Hact2 & _ & Hp2 & _ & Hat2 & _). fold st2 in Hq2, Hact2, Hp2, Hat2.
+  assert (Hf2 : follows f st2).
+  { destruct Hf as (Hq & Hp & Ha). split; [|split].
+    - intros e He. apply Hq. rewrite Hq2, Hq1 in He. destruct (m_hretired st1 <? rpt); [apply filter_In in He; tauto|assumption].
+    - rewrite Hp2. intros pe Hpe. apply Hp, Hpin, Hpe.
+    - rewrite Hat2, Hat1, Hact2, Hact1. assumption. }
+  destruct (seq =? m_active st2); [intros H; inversion H; subst; assumption|].
+  destruct (add_conn_id (mkN seq c tok) (m_queue st2)) as [q'|] eqn:E; [|intros H; inversion H; subst; assumption].
+  assert (Hf3 : follows f (set_queue st2 q')).
+  { destruct Hf2 as (Hq & Hp & Ha). split; [|split; assumption]. intros e He. simpl in He.
+    destruct (add_conn_id_elems _ _ _ _ E He) as [->|Hin]; [exact Htok|auto]. }
+  destruct (m_active (set_queue st2 q') <? rpt).
+  - destruct (update_conn_id d (set_queue st2 q')) as [st4|] eqn:E4; intros H; inversion H; subst; [|assumption].
+    eapply update_follows; eauto.
+  - intros H; inversion H; subst. assumption.
+Qed.
+
+Lemma step_follows f o st : frame_follows f o -> follows f st -> follows f (fst (mgr_step o st)).
+Proof.
+  intros Hfo Hf. destruct o as [seq rpt c tok draw|c tok|draw|k| | |c|tok|id|id|tok|n]; cbn [mgr_step frame_follows] in *; try exact Hf.
+  - unfold mgr_add. destruct (mgr_add_inner seq rpt c tok draw st) as [st' r] eqn:E.
+    pose proof (add_inner_follows _ _ _ _ _ _ _ _ _ Hfo Hf E) as H. destruct r; simpl; try exact H. destruct (_ <=? _); exact H.
+  - unfold mgr_add_pref. destruct (add_conn_id (mkN 1 c tok) (m_queue st)) as [q'|] eqn:E; [|exact Hf]. simpl.
+    destruct Hf as (Hq & Hp & Ha). split; [|split; assumption]. intros e He. simpl in He.
+    destruct (add_conn_id_elems _ _ _ _ E He) as [->|Hin]; [exact Hfo|auto].
+  - unfold mgr_get. destruct (m_closed st); [exact Hf|]. destruct (should_update st); [|exact Hf].
+    destruct (update_conn_id draw st) as [st'|] eqn:E; [|exact Hf]. simpl. eapply update_follows; eauto.
+  - unfold mgr_change_initial. destruct (_ =? _); exact Hf.
+  - unfold mgr_set_token. destruct (m_closed st); [exact Hf|]. destruct (Z.eqb_spec (m_active st) 0) as [H0|]; [|exact Hf]. simpl.
+    destruct Hf as (Hq & Hp & Ha). split; [assumption|]. split; [assumption|]. simpl. intros t Ht. inversion Ht; subst. rewrite H0. reflexivity.
+  - unfold mgr_path_get. destruct (m_closed st); [exact Hf|]. destruct (m_acid st); [exact Hf|].
+    destruct (plookup id (m_probing st)); [exact Hf|]. destruct (m_queue st) as [|fr rest] eqn:Eq; [exact Hf|]. simpl.
+    destruct Hf as (Hq & Hp & Ha). rewrite Eq in Hq. split; [|split].
+    + intros e He. apply Hq. right; assumption.
+    + intros pe Hpe. simpl in Hpe. apply in_app_or in Hpe as [Hpe|[<-|[]]]; [auto|]. simpl. apply Hq. left; reflexivity.
+    + assumption.
+  - unfold mgr_path_retire. destruct (m_closed st); [exact Hf|]. destruct (m_acid st); [exact Hf|].
+    destruct (plookup id (m_probing st)); [|exact Hf]. simpl. destruct Hf as (Hq & Hp & Ha).
+    split; [assumption|]. split; [|assumption]. intros pe Hpe. apply Hp. eapply pdelete_incl; eauto.
+Qed.
+
+Lemma follows_tok_ok f o st :
+  (forall a b, f a = f b -> a = b) -> minv st -> op_ok o st -> frame_follows f o -> follows f st -> tok_ok_op o st.
+Proof.
+  intros Hinj (Hcore & _) (Hcl & Hres & Hok) Hfo (Hq & Hp & Ha).
+  assert (Hheld : forall t, In t (all_toks st) ->
+            (exists a, m_atok st = Some a /\ t = f (m_active st)) \/
+            exists s, In s (qseqs (m_queue st) ++ pseqs (m_probing st)) /\ t = f s).
+  { intros t Hin. unfold all_toks, atoks in Hin. apply in_app_or in Hin as [Hin|Hin].
+    - destruct (m_atok st) as [a|] eqn:Ea; [|destruct Hin]. destruct Hin as [<-|[]]. left. exists a. split; [reflexivity|apply Ha; reflexivity].
+    - right. apply in_app_or in Hin as [Hin|Hin].
+      + unfold qtoks in Hin. apply in_map_iff in Hin as (e & <- & He). exists (n_seq e). split; [|apply Hq; assumption].
+        apply in_or_app. left. unfold qseqs. apply in_map. assumption.
+      + unfold ptoks in Hin. apply in_map_iff in Hin as (pe & <- & Hpe). exists (n_seq (snd pe)). split; [|apply Hp; assumption].
+        apply in_or_app. right. unfold pseqs. apply in_map_iff. exists pe. auto. }
+  destruct o; cbn [tok_ok_op frame_follows] in *; try exact I.
+  - intros Hni Hin. subst tok. destruct (Hheld _ Hin) as [(a & _ & Heq)|(s & Hs & Heq)]; apply Hinj in Heq; subst; apply Hni; unfold held; [left; reflexivity|right; assumption].
+  - intros Hni Hin. subst tok. destruct (Hheld _ Hin) as [(a & _ & Heq)|(s & Hs & Heq)]; apply Hinj in Heq; apply Hni; unfold held; [left; congruence|right; subst; assumption].
+  - (* SetStatelessResetToken: the manager is at sequence number 0 and has no active token yet *)
+    intros Hin. subst tok. destruct (Hheld _ Hin) as [(a & Hat & _)|(s & Hs & Heq)]; [congruence|].
+    apply Hinj in Heq. subst s. cbn [mgr_step] in Hres. unfold mgr_set_token in Hres. rewrite Hcl in Hres.
+    destruct (Z.eqb_spec (m_active st) 0) as [H0|]; [|discriminate Hres].
+    destruct (core_held_once _ Hcore) as [Hnd _]. unfold held in Hnd. rewrite H0 in Hnd. inversion Hnd; contradiction.
+Qed.
+
+(** The token discipline from "every sequence number has its own token": if the tokens of all
+    frames (and of the transport parameters, for number 0) follow an injective function of the
+    sequence number - retransmissions of any frame included -, the conclusions of
+    [token_discipline] hold. *)
+Theorem token_discipline_fn (f : Z -> Z) init ops st :
+  (forall a b, f a = f b -> a = b) ->
+  reachP (fun o s => op_ok o s /\ frame_follows f o) init ops st ->
+  disc (m_log st) = true /\ NoDup (all_toks st) /\
+  (forall t, reg t (m_log st) = true <-> In t (atoks st) \/ In t (ptoks (m_probing st))) /\
+  disc (m_log (mgr_close st)) = true /\ (forall t, reg t (m_log (mgr_close st)) = false).
+Proof.
+  intros Hinj Hr. apply (token_discipline init ops).
+  assert (H : reachP op_okt init ops st /\ minv st /\ follows f st).
+  { induction Hr as [|o ops st Hr (IHr & IHm & IHf) [Hok Hfo]].
+    - split; [constructor|]. split; [apply minv_init|]. split; [intros e []|split; [intros pe []|discriminate]].
+    - split; [|split].
+      + constructor; [assumption|]. split; [assumption|]. eapply follows_tok_ok; eauto.
+      + apply step_minv; assumption.
+      + apply step_follows; assumption. }
+  apply H.
+Qed.
+
+Lemma frame_follows_example :
+  let f := fun s => 1000 + s in
+  (forall a b, f a = f b -> a = b) /\
+  Forall (frame_follows f) [w_add 1; w_add 2; MPathGet 1; w_add 1; MHsDone; MGet 0; w_add 2; MPathRetire 1; w_add 1].
+Proof. intros f. split; [intros a b H; unfold f in H; lia|repeat constructor]. Qed.
+
+Lemma hist_fn_reach_gen f init : forall ops past st,
+  reachP (fun o s => op_ok o s /\ frame_follows f o) init past st ->
+  hist_okb ops st = true -> Forall (frame_follows f) ops ->
+  reachP (fun o s => op_ok o s /\ frame_follows f o) init (rev ops ++ past) (mgr_run ops st).
+Proof.
+  induction ops as [|o ops IH]; simpl; intros past st Hr H HF; [assumption|].
+  apply andb_prop in H as [Ho Hrest]. inversion HF; subst. rewrite <- app_assoc. simpl.
+  apply (IH (o :: past)); [|assumption|assumption]. constructor; [assumption|]. split; [apply op_okb_ok; assumption|assumption].
+Qed.
+
+(** non-vacuity with retransmissions for a probing, an active and a retired ID *)
+Lemma token_fn_example :
+  let f := fun s => 1000 + s in
+  let ops := [w_add 1; w_add 2; MPathGet 1; w_add 1; MHsDone; MGet 0; w_add 2; MPathRetire 1; w_add 1] in
+  (forall a b, f a = f b -> a = b) /\
+  reachP (fun o s => op_ok o s /\ frame_follows f o) w_init (rev ops) (mgr_run ops (mgr_init w_init)).
+Proof.
+  intros f ops. destruct frame_follows_example as [Hinj HF]. split; [exact Hinj|].
+  rewrite <- (app_nil_r (rev ops)). apply hist_fn_reach_gen; [constructor| |exact HF]. vm_compute. reflexivity.
+Qed.
